@@ -239,7 +239,7 @@ P("C13", "proof", "Lean 4 byte-level theorem (cut at the end of the stem) + mode
   "exactly at the end of the stem whatever trails the file name (set_ext_bytes); the cut is followed by a dot, a junk "
   "token or nothing, i.e. never inside a name, hence on a character boundary of a valid UTF-8 buffer "
   "(set_ext_cut_boundary); without a file name it returns false and leaves the buffer untouched (set_ext_false, "
-  "set_ext_true_iff).",
+  "set_ext_true_iff). Windows re-parse: for every covered base without a verbatim prefix and every separator-free extension the result has the old components with the file name replaced by stem[.x] — same parent, new file name — and is again covered (C13b.win_set_ext_comps, win_set_ext_name_parent).",
   "For Unix the result is also proved to re-parse with the old parent's components and the file name stem[.x] "
   "(C12b.unix_set_ext_comps, unix_set_ext_name_parent; the corner stem in {., ..} with empty x is excluded exactly as "
   "in std), and the result of a valid UTF-8 buffer is valid UTF-8 (C14.set_extension_valid). "
@@ -248,8 +248,9 @@ P("C13", "proof", "Lean 4 byte-level theorem (cut at the end of the stem) + mode
   "as reference) and the correspondence, not by a theorem. Model=code by differential testing incl. multi-byte "
   "characters next to every cut.",
   theorems=["TP.C13.set_ext_bytes", "TP.C13.set_ext_cut_boundary", "TP.C13.set_ext_false", "TP.C13.set_ext_true_iff", "TP.C13.set_ext_total",
-            "TP.C13.set_ext_tokens", "TP.C12b.unix_set_ext_comps", "TP.C12b.unix_set_ext_name_parent", "TP.C14.set_extension_valid"],
-  modules=["TypedPathVerif.Props.C12b", "TypedPathVerif.Props.C14"],
+            "TP.C13.set_ext_tokens", "TP.C12b.unix_set_ext_comps", "TP.C12b.unix_set_ext_name_parent", "TP.C14.set_extension_valid",
+            "TP.C13b.win_set_ext_comps", "TP.C13b.win_set_ext_name_parent", "TP.C13b.set_ext_tokens2"],
+  modules=["TypedPathVerif.Props.C12b", "TypedPathVerif.Props.C14", "TypedPathVerif.Props.C13b"],
   rule=NONTRIV + "(path, extension) pairs; non-trivial = file name followed by separators or `.`", design_ref="§5 C13")
 
 P("C14", "proof", "Lean 4 theorems (UTF-8 validity is preserved by every byte-level operation and mutation history) + UTF-8 family vs byte family transcripts (delegation) + model/code correspondence",
